@@ -755,7 +755,11 @@ def c06(rep, model):
                         ok_found = True
                     else:
                         why.append('found result is %s, expected the mapped location' % t_show(val))
-        D.check(ok_found and ok_none and not why, 'getCurrentBreak', 'line_info[ip-%d] or {"none",-1}' % k,
+        touched = [o for o in model.roles.get('other', []) if any(('pre(%s' % o) in w or o in w for w in why)]
+        if touched:
+            D.unknown('getCurrentBreak', 'the answer depends on VM state outside the model (%s): %s' % (', '.join(touched), '; '.join(why)[:200]))
+        else:
+          D.check(ok_found and ok_none and not why, 'getCurrentBreak', 'line_info[ip-%d] or {"none",-1}' % k,
                 '; '.join(why) or 'result shape not recognised', _where(model, gc, gc['loc'][1:]))
     for name in ('VM', 'reset'):
         f = model.facts.fn('Theo::VM::' + name)
@@ -877,6 +881,12 @@ def c17(rep, model):
                 continue
             a = final_state(cp, fld, True)
             b = final_state(s, fld, False)
+            scalar = fld['cty'].replace('const ', '') in ('int', 'long', 'unsigned int', 'unsigned long', 'bool', 'char', 'short', 'long long', 'unsigned long long', 'size_t', 'double', 'float') or fld['cty'].endswith('::Type')
+            if fld['name'] in model.roles.get('other', []) and a == 'uninitialised' and b == 'unchanged' and not scalar:
+                # state outside the model that neither the constructor nor reset touches explicitly (default-constructed member):
+                # whether a stale value matters depends on the flag that guards it, which has its own instance
+                Z1.ok(inst, 'neither the constructor nor reset assigns it (default-constructed; guarded state outside the model)', where)
+                continue
             Z1.check(a == b, inst, 'constructor and reset both leave it %s' % a,
                      'constructor leaves it %s, reset leaves it %s' % (a, b), where,
                      witness={'field': fld['name'], 'constructor': a, 'reset': b})
